@@ -27,8 +27,9 @@ CLAIMS = {
          "solveMatrixPDE agreement", "DESIGN.md 4 (C04)"),
  "C07": ("Theorems over R: every solution of a system whose rows are convex combinations plus sink stays within [min(data,0), max(data,0)] (within the data "
          "range without sink), non-negativity; sign structure of the diffusion and upwind stencils and row sum = div(u); per axis, -diffusion + upwind has "
-         "exactly the convex row shape (Props/C07.v). PARTIAL: ghost-cell elimination and summation over axes linking these to the assembled system are not a "
-         "Coq theorem. Probe: multi-step solves with D contrast 1e8, divergence-free u on every class, dt over 8 decades, Dirichlet/no-flux/periodic; overshoots "
+         "exactly the convex row shape; and ON THE MODEL for every class and dimension: every solution of the transient/-diffusion/upwind(div-free)/sink "
+         "system lies between min and max of previous values, boundary data and 0 (flux form + argmax over the finite set of unknowns; ghost hypothesis from "
+         "Dirichlet / no-flux rows) (Props/C07.v). PARTIAL: periodic axes not covered; ghost hypothesis discharged per boundary kind. Probe: multi-step solves with D contrast 1e8, divergence-free u on every class, dt over 8 decades, Dirichlet/no-flux/periodic; overshoots "
          "confirmed by exact rational re-solve", "DESIGN.md 4 (C07)"),
  "C08": ("Theorems (generic field): on a field that does not vary along an axis the block of that axis of diffusion is 0 and of central/upwind advection is "
          "value*div(u), 0 for invariant velocity (Props/C08.v); model symmetric under axis relabelling/mirroring by construction (one per-axis stencil); per-axis "
@@ -58,8 +59,10 @@ CLAIMS = {
          "6 labels x 9 classes x get/set (+CellProp), periodic flags on radial boundaries raise ValueError and no other flag does, the term-kind chain of "
          "solvePDE yields TypeError exactly for non-conforming terms (Props/C16.v); every table row plus shapes, arities 0..7 and BoundaryFace types is executed on the implementation", "DESIGN.md 4 (C16)"),
  "C17": ("Theorems: under a change of the length unit every diffusion/central/upwind stencil coefficient of the rescaled problem is 1/T times the original, "
-         "boundary a/h unchanged, ghost values scale with K; linearity of each term in its coefficient field (Props/C17.v). The assembly 'K*x solves the "
-         "rescaled system' for arbitrary term lists is PARTIAL in Coq (row-level) and exercised on the real code in two unit systems over +-6 decades", "DESIGN.md 4 (C17)"),
+         "boundary a/h unchanged, ghost values scale with K, linearity in coefficient fields; and at solution level: if x solves the system of (mesh, bc, terms) "
+         "then K*x solves the system of the rescaled data, for every class and term list incl. periodic and corner rows (C17_solution_scales, Props/C17.v). "
+         "TVD vectors enter as data scaled K/T (the code's TVD vector scales so except below _fsign's absolute threshold: exercised, not proved). Probe: "
+         "two unit systems over +-6 decades, also with D = harmonicMean(k); homogeneity of the means", "DESIGN.md 4 (C17)"),
  "C12": ("Theorems: backward-Euler row identity, steady <-> fixed point for every dt and alpha, increment identity behind dt->0/inf, explicit step "
          "definition (Props/C12.v); limit statements themselves are partial (identities only); suites solve/explicit; dt sweeps over 12 decades on the real code", "DESIGN.md 4 (C12)"),
  "C13": ("Theorems about the limiter definitions REGENERATED from utilities.fluxLimiter / advection._fsign on every run (published closed form "
